@@ -13,14 +13,17 @@ MONS = (('mc.monitors', 'ExceptionMonitor', dict(prop='C12')),
 def specs(tier):
     q = tier == 'quick'
     js = [
-        J('single1:S4', 'steady', dict(n=1, methods=('boom',)), dict(S=4, H=1), dict(k=0)),
-        J('steady2:S3H1', 'steady', dict(n=2, methods=('boom',)), dict(S=3, H=1), dict(k=0)),
-        J('steady3:S2H1', 'steady', dict(n=3, methods=('boom',)), dict(S=2, H=1), dict(k=0)),
-        J('steady2-nobatch:S2H1', 'steady', dict(n=2, methods=('boom',), batch=False), dict(S=2, H=1), dict(k=0)),
+        J('single1:S4', 'steady', dict(n=1, methods=('boom', 'boom0')), dict(S=4, H=1), dict(k=0)),
+        J('steady2:S2H1', 'steady', dict(n=2, methods=('boom', 'boom0')), dict(S=2, H=1), dict(k=0)),
+        J('steady2-boom:S3H1', 'steady', dict(n=2, methods=('boom',)), dict(S=3, H=1), dict(k=0)),
+        J('steady3:S1H1', 'steady', dict(n=3, methods=('boom', 'boom0')), dict(S=1, H=1), dict(k=0)),
+        J('steady3-boom:S2H1', 'steady', dict(n=3, methods=('boom',)), dict(S=2, H=1), dict(k=0)),
+        J('steady2+1obs:S2H1', 'steady', dict(n=2, observers=1, methods=('boom',)), dict(S=2, H=1), dict(k=0)),
+        J('steady2-nobatch:S2H1', 'steady', dict(n=2, methods=('boom', 'boom0'), batch=False), dict(S=2, H=1), dict(k=0)),
     ]
     if not q:
-        js += [J('steady2:S4H2', 'steady', dict(n=2, methods=('boom',)), dict(S=4, H=2), dict(k=0)),
-               J('steady3:S3H2', 'steady', dict(n=3, methods=('boom',)), dict(S=3, H=2), dict(k=0))]
+        js += [J('steady2:S4H2', 'steady', dict(n=2, methods=('boom', 'boom0')), dict(S=4, H=2), dict(k=0)),
+               J('steady3:S3H2', 'steady', dict(n=3, methods=('boom', 'boom0')), dict(S=3, H=2), dict(k=0))]
     for j in js:
         j['max_states'] = 100000 if q else 1000000
     return js
